@@ -859,7 +859,8 @@ class _Unmarshaller:
 def _read(self, n):
     pos = self.bufpos
     newpos = pos + n
-    if newpos > len(self.bufstr):
+    if n < 0 or newpos > len(self.bufstr):
+        # (a negative length would move the read position backwards)
         raise EOFError
     ret = self.bufstr[pos:newpos]
     self.bufpos = newpos
